@@ -33,7 +33,7 @@ def run_seed(sid):
         shutil.rmtree(d, ignore_errors=True)
 
 
-with ThreadPoolExecutor(max_workers=6) as ex:
+with ThreadPoolExecutor(max_workers=12) as ex:
     results = dict(ex.map(run_seed, seeds))
 mx = {}
 for sid, out in results.items():
